@@ -21,6 +21,7 @@ SUPP_THEOREMS = [
     "c10_helpers_emit_wire_form",
     "c10_parse_tables_fit_schemas",
     "c10_parse_dispatch_lossless",
+    "c10_complete_enum_exact",
 ]
 THEOREMS = [
     "c10_translated",
@@ -281,6 +282,8 @@ class DumpSites(Suite):
 
 def extra(ctx, tier):
     """which wire-feeding sites of the static table are exercised by a recipe"""
+    from ..schema_suites import HelperFlows
+    ctx.notes.extend("supplementary helper flow: " + n for n in HelperFlows.supp_notes)
     exercised = {HELPER_SITES[h][0] for h in HELPER_SITES}
     for s in static_sites():
         if s["feedsWire"]:
